@@ -58,6 +58,10 @@ Theorem C13_eventually_B : forall v n pcap c06 l ext, 0 <= n -> 1 <= pcap -> 1 <
 Proof. exact ProofsB.eventually_ready. Qed.
 Print Assumptions C13_eventually_B.
 
+Theorem C13_ready_runs_B : forall s,
+  B.cp s = B.C_poll -> B.event_ready s = true -> B.cp (B.step C s) = B.C_drain06.
+Proof. exact ProofsB.ready_runs. Qed.
+
 Theorem C13_quiescent_B : forall v n pcap c06 l, 0 <= n -> 1 <= pcap -> 1 <= c06 ->
   let s := B.exec v n pcap c06 l in B.quiescent s = true -> B.deliv s = n /\ B.taken s = B.ins s.
 Proof. exact ProofsB.quiescent_all_delivered. Qed.
@@ -90,6 +94,10 @@ Theorem C13_eventually_C : forall cap n l ext, 1 <= cap -> 0 <= n ->
   exists e1 e2, ext = e1 ++ e2 /\ W.woken (W.exec true cap n (l ++ e1)) = true.
 Proof. exact ProofsC.eventually_woken. Qed.
 Print Assumptions C13_eventually_C.
+
+Theorem C13_woken_runs_C : forall s,
+  W.cp s = W.C_parked -> W.woken s = true -> W.cp (W.step C s) = W.C_send.
+Proof. exact ProofsC.woken_runs. Qed.
 
 Theorem C13_quiescent_C : forall cap n l, 1 <= cap -> 0 <= n ->
   let s := W.exec true cap n l in W.quiescent s = true -> W.sent s = n.
@@ -130,6 +138,10 @@ Theorem C13_eventually_D : forall cap q0 l ext, 1 <= cap -> 0 <= q0 <= cap ->
 Proof. exact ProofsD.eventually_woken. Qed.
 Print Assumptions C13_eventually_D.
 
+Theorem C13_woken_runs_D : forall s,
+  D.cp s = D.C_parked -> D.woken s = true -> D.cp (D.step C s) = D.C_poll.
+Proof. exact ProofsD.woken_runs. Qed.
+
 (* whenever writer and future have come to rest the future has completed *)
 Theorem C13_quiescent_D : forall cap q0 l, 1 <= cap -> 0 <= q0 <= cap ->
   let s := D.exec true cap q0 l in D.quiescent s = true -> D.complete s = true.
@@ -142,6 +154,10 @@ Theorem C13_no_lost_wakeup_D2 : forall n cap l, 0 <= n -> 0 <= cap ->
   let s := S.exec n cap l in S.parked s -> S.available s -> S.woken s = true.
 Proof. exact ProofsS.no_lost_wakeup. Qed.
 Print Assumptions C13_no_lost_wakeup_D2.
+
+Theorem C13_woken_runs_D2 : forall s,
+  S.cp s = S.C_parked -> S.woken s = true -> S.cp (S.step C s) = S.C_poll.
+Proof. exact ProofsS.woken_runs. Qed.
 
 Theorem C13_quiescent_D2 : forall n cap l, 0 <= n -> n <= cap ->
   let s := S.exec n cap l in S.quiescent s = true -> S.deliv s = n /\ S.chan s = 0.
